@@ -7,52 +7,54 @@ A log is what the adapter records on the real code: clock readings (`t` by the t
 -/
 namespace Hio.Timer
 
+variable {τ : Type} [Add τ] [Sub τ] [LT τ] [LE τ] [DecidableLT τ] [DecidableLE τ] [Max τ] [Zero τ] [Mul τ] [NatCast τ]
+
 /-- elapsed real time over a list of successive clock readings that follow the reading `ℓ`: the sum of the
 non-negative increments (a backward step is a clock adjustment, not time running backwards) -/
-def realElapsed : Int → List Int → Int
+def realElapsed : τ → List τ → τ
   | _, [] => 0
   | ℓ, r :: rs => max 0 (r - ℓ) + realElapsed r rs
 
 /-- all clock readings in a log, whoever made them -/
-def readingsOf : List Ev → List Int
+def readingsOf : List (Ev τ) → List τ
   | [] => []
   | .t r :: es => r :: readingsOf es
   | .x r :: es => r :: readingsOf es
   | _ :: es => readingsOf es
 
 /-- the clock readings the timer itself made -/
-def timerReadingsOf : List Ev → List Int
+def timerReadingsOf : List (Ev τ) → List τ
   | [] => []
   | .t r :: es => r :: timerReadingsOf es
   | _ :: es => timerReadingsOf es
 
 /-- never early, scanning form: `F` = elapsed real time so far, `ℓ` = last reading so far;
 cycle `k ≥ 1` begins only when `k * tock ≤ F` -/
-def neverEarlyFrom (tock : Int) : Int → Int → List Ev → Prop
+def neverEarlyFrom (tock : τ) : τ → τ → List (Ev τ) → Prop
   | _, _, [] => True
   | F, ℓ, .t r :: es => neverEarlyFrom tock (F + max 0 (r - ℓ)) r es
   | F, ℓ, .x r :: es => neverEarlyFrom tock (F + max 0 (r - ℓ)) r es
   | F, ℓ, .s _ :: es => neverEarlyFrom tock F ℓ es
-  | F, ℓ, .c k :: es => (1 ≤ k → (k : Int) * tock ≤ F) ∧ neverEarlyFrom tock F ℓ es
+  | F, ℓ, .c k :: es => (1 ≤ k → (k : τ) * tock ≤ F) ∧ neverEarlyFrom tock F ℓ es
 
 /-- lossless, scanning form: `E` = elapsed real time the timer could see (over its own readings), `lt` = its last
 reading, `k` = the cycle that is running.  Cycle `k ≥ 1` begins only when `k * tock ≤ E`, and every sleep requested
 while waiting after cycle `k` is exactly the time left to the deadline `(k+1) * tock` — the deadlines are the multiples
 of `tock` counted from the start of the run, whatever the lateness of the earlier cycles. -/
-def losslessFrom (tock : Int) : Int → Int → Nat → List Ev → Prop
+def losslessFrom (tock : τ) : τ → τ → Nat → List (Ev τ) → Prop
   | _, _, _, [] => True
   | E, lt, k, .t r :: es => losslessFrom tock (E + max 0 (r - lt)) r k es
   | E, lt, k, .x _ :: es => losslessFrom tock E lt k es
-  | E, lt, k, .s d :: es => d = max 0 (((k : Int) + 1) * tock - E) ∧ losslessFrom tock E lt k es
-  | E, lt, _, .c k :: es => (1 ≤ k → (k : Int) * tock ≤ E) ∧ losslessFrom tock E lt k es
+  | E, lt, k, .s d :: es => d = max 0 (((k + 1 : Nat) : τ) * tock - E) ∧ losslessFrom tock E lt k es
+  | E, lt, _, .c k :: es => (1 ≤ k → (k : τ) * tock ≤ E) ∧ losslessFrom tock E lt k es
 
 /-- a run log: empty (the clock script ran out before `timer.start()`), or the start reading followed by events -/
-def NeverEarly (tock : Int) : List Ev → Prop
+def NeverEarly (tock : τ) : List (Ev τ) → Prop
   | [] => True
   | .t r0 :: es => neverEarlyFrom tock 0 r0 es
   | _ => False
 
-def Lossless (tock : Int) : List Ev → Prop
+def Lossless (tock : τ) : List (Ev τ) → Prop
   | [] => True
   | .t r0 :: es => losslessFrom tock 0 r0 0 es
   | _ => False
@@ -64,18 +66,18 @@ A timer is a start and a duration; `stop = start + duration`; it reports `elapse
 `remaining = stop - now`, `expired ⇔ now ≥ stop`; `start` begins a period at the given start (or now), `restart` begins the
 next period at the previous stop; the duration is kept unless a new one is given. -/
 
-structure TRef where
+structure TRef (τ : Type) where
   wound : Option Nat
-  start : Int
-  dur : Int
+  start : τ
+  dur : τ
 
-def TRef.now (w : TWorld) (r : TRef) : Option Int :=
+def TRef.now (w : TWorld τ) (r : TRef τ) : Option τ :=
   match r.wound with
   | some i => some (w.tyme i)
   | none => none
 
 /-- what the property says must be reported -/
-def TRef.report (w : TWorld) (r : TRef) (ret : Option Int) : TSnap :=
+def TRef.report (w : TWorld τ) (r : TRef τ) (ret : Option τ) : TSnap τ :=
   match r.now w with
   | some now =>
     { ret := ret, duration := r.dur, elapsed := .ok (now - r.start), remaining := .ok (r.start + r.dur - now),
@@ -83,7 +85,7 @@ def TRef.report (w : TWorld) (r : TRef) (ret : Option Int) : TSnap :=
   | none =>   -- a timer that is not wound to a tymist has no `now`
     { ret := ret, duration := r.dur, elapsed := .error .typeError, remaining := .error .typeError, expired := .error .typeError }
 
-def rstep (w : TWorld) (r : TRef) : TOp → Option (TWorld × TRef × Option Int)
+def rstep (w : TWorld τ) (r : TRef τ) : TOp τ → Option (TWorld τ × TRef τ × Option τ)
   | .setTyme i v => some (w.set i v, r, none)
   | .tick i => some (w.set i (w.tyme i + w.tock i), r, none)
   | .start d (some s) => some (w, { r with start := s, dur := durOr d r.dur }, some s)
@@ -93,35 +95,35 @@ def rstep (w : TWorld) (r : TRef) : TOp → Option (TWorld × TRef × Option Int
   | .restart d => some (w, { r with start := r.start + r.dur, dur := durOr d r.dur }, some (r.start + r.dur))
   | .wind i => some (w, { r with wound := some i, start := w.tyme i }, none)
 
-def rrun (w : TWorld) (r : TRef) : List TOp → List (Option TSnap)
+def rrun (w : TWorld τ) (r : TRef τ) : List (TOp τ) → List (Option (TSnap τ))
   | [] => []
   | op :: ops => match rstep w r op with
     | some (w', r', ret) => some (r'.report w' ret) :: rrun w' r' ops
     | none => [none]
 
 /-- `Tymer(tymth, duration, start)`: duration defaults to `Tymer.Duration`, start to the current tyme (0 when not wound) -/
-def TRef.new (w : TWorld) (wound : Option Nat) (dur start : Option Int) : TRef :=
-  { wound := wound, dur := durOr dur Gen.tymerDuration,
+def TRef.new (ddur : τ) (w : TWorld τ) (wound : Option Nat) (dur start : Option τ) : TRef τ :=
+  { wound := wound, dur := durOr dur ddur,
     start := match start, wound with
       | some s, _ => s
       | none, some i => w.tyme i
       | none, none => 0 }
 
 /-- final state after a list of operations (`none` if one raised) -/
-def texec (w : TWorld) (t : Tymer) : List TOp → Option (TWorld × Tymer)
+def texec (w : TWorld τ) (t : Tymer τ) : List (TOp τ) → Option (TWorld τ × Tymer τ)
   | [] => some (w, t)
   | op :: ops => match tstep w t op with
     | .ok (w', t', _) => texec w' t' ops
     | .error _ => none
 
 /-- operations that only move tyme or restart with the current duration -/
-def TOp.tymeOrRestart : TOp → Bool
+def TOp.tymeOrRestart : TOp τ → Bool
   | .setTyme _ _ => true
   | .tick _ => true
   | .restart none => true
   | _ => false
 
-def restartsIn : List TOp → Nat
+def restartsIn : List (TOp τ) → Nat
   | [] => 0
   | .restart _ :: ops => restartsIn ops + 1
   | _ :: ops => restartsIn ops
@@ -129,58 +131,58 @@ def restartsIn : List TOp → Nat
 /-! ## C08, MonoTimer -/
 
 /-- what happens to a MonoTimer between observations: it sees a clock reading, or it is restarted with its duration -/
-inductive MEv
-  | read (r : Int)
+inductive MEv (τ : Type)
+  | read (r : τ)
   | restart
 deriving Repr
 
-def readsOf : List MEv → List Int
+def readsOf : List (MEv τ) → List τ
   | [] => []
   | .read r :: es => r :: readsOf es
   | .restart :: es => readsOf es
 
-def restartsOf : List MEv → Nat
+def restartsOf : List (MEv τ) → Nat
   | [] => 0
   | .read _ :: es => restartsOf es
   | .restart :: es => restartsOf es + 1
 
 /-- the last of the readings `rs` that follow the reading `ℓ` -/
-def lastReading : Int → List Int → Int
+def lastReading : τ → List τ → τ
   | ℓ, [] => ℓ
   | _, r :: rs => lastReading r rs
 
 /-- feed readings (through `.latest`) and restarts to a timer -/
-def Mono.feed (m : Mono) : List MEv → Except Exn Mono
+def Mono.feed (m : Mono τ) : List (MEv τ) → Except Exn (Mono τ)
   | [] => .ok m
   | .read r :: es => match m.latest r with
     | .ok (_, m') => m'.feed es
     | .error e => .error e
   | .restart :: es => (m.restart none).feed es
 
-def elapsedVal? {σ} : MOp → Option (MVal × σ) → Option Int
+def elapsedVal? {σ} : MOp τ → Option (MVal τ × σ) → Option τ
   | .elapsed, some (.int v, _) => some v
   | _, _ => none
 
-def expiredVal? {σ} : MOp → Option (MVal × σ) → Option Bool
+def expiredVal? {σ} : MOp τ → Option (MVal τ × σ) → Option Bool
   | .expired, some (.bool v, _) => some v
   | _, _ => none
 
 /-- the `elapsed` results among the results of a scenario, in order -/
-def elapsedVals {σ} : List MOp → List (Option (MVal × σ)) → List Int
+def elapsedVals {σ} : List (MOp τ) → List (Option (MVal τ × σ)) → List τ
   | op :: ops, r :: rs => match elapsedVal? op r with
     | some v => v :: elapsedVals ops rs
     | none => elapsedVals ops rs
   | _, _ => []
 
 /-- the `expired` results among the results of a scenario, in order -/
-def expiredVals {σ} : List MOp → List (Option (MVal × σ)) → List Bool
+def expiredVals {σ} : List (MOp τ) → List (Option (MVal τ × σ)) → List Bool
   | op :: ops, r :: rs => match expiredVal? op r with
     | some v => v :: expiredVals ops rs
     | none => expiredVals ops rs
   | _, _ => []
 
 /-- operations that do not begin a new period -/
-def MOp.isObs : MOp → Bool
+def MOp.isObs : MOp τ → Bool
   | .start _ _ => false
   | .restart _ => false
   | _ => true
